@@ -163,6 +163,12 @@ func (a *Authenticator) Start() error {
 
 // ReceivePacket processes an incoming authentication packet
 func (a *Authenticator) ReceivePacket(protocol uint16, data []byte) error {
+	// Only the protocol that was negotiated in LCP may authenticate the peer:
+	// a PAP request must not satisfy a link that demanded CHAP (or vice versa).
+	if (protocol == ProtocolPAP || protocol == ProtocolCHAP) && protocol != a.config.Protocol {
+		return fmt.Errorf("auth protocol 0x%04X not negotiated (expected 0x%04X)", protocol, a.config.Protocol)
+	}
+
 	switch protocol {
 	case ProtocolPAP:
 		return a.receivePAP(data)
